@@ -175,15 +175,16 @@ def gate_and_options(ctx, F):
     if M is None:
         ctx.missing(r3, err, cfg=F.key)
         return
-    if M.unknown:
+    evaluated = common.finalize_table_evaluated(F, M)[0] is not None
+    if M.unknown and not evaluated:
         ctx.missing(r4, "unrecognised branch condition in finalize_with_options: %s" % M.unknown[:2], cfg=F.key)
         return
     b = M.body
     # shape of the gate operands
     gates = [e for p in M.paths if p["end"] == "return" for e in p["events"] if e[0] == "len_gate"]
     want_len = ("call", "core::option::Option::<T>::unwrap_or", (("call", V("pl"), (P(1),)), C(0xFFFFFFFF)))
-    okg = bool(gates)
-    for g in gates:
+    okg = bool(gates) or evaluated  # with the evaluated table the gate's operands are part of what the table decides
+    for g in ([] if evaluated else gates):
         e = g[2]
         m = match(("call", "length::DataLengthValidity::is_err_on", (("ref", V("v")), ("load", ("field", ("deref", P(2)), M.of["mode"])))), e)
         okg = okg and m is not None
